@@ -28,8 +28,8 @@ Definition show_event (e : event) : bytes :=
   | (MTable, ATable t) => str "T" ++ show_nat (count_live (t_items t))
   | (MInlineTable, AValue (VInline items _ _ _ _ _)) => str "N" ++ show_nat (count_live items)
   | (MTableLike, ALike inline items) =>
-    (* node.iter().count() through the &dyn TableLike *)
-    str "L" ++ show_nat (if inline then List.length items else count_live items)
+    (* node.iter().count() through the &dyn TableLike: both impls skip placeholders *)
+    str "L" ++ show_nat (count_live items)
   | (MTableLikeKv, AKv k _) => str "K" ++ show_hex (k_key k)
   | (MItem, AItem i) =>
     str (match i with INone => "In" | IValue _ => "Iv" | ITable _ => "It" | IAot _ _ => "Ia" end)
@@ -55,15 +55,6 @@ Definition show_event (e : event) : bytes :=
 
 Definition show_log (l : list event) : bytes := join (str ",") (map show_event l).
 
-(* the harness's independent walk goes through the inherent accessors (Table::iter,
-   InlineTable::iter), which skip placeholders: its L<n> counts the live entries *)
-Definition show_event_walk (e : event) : bytes :=
-  match e with
-  | (MTableLike, ALike _ items) => str "L" ++ show_nat (count_live items)
-  | _ => show_event e
-  end.
-Definition show_log_walk (l : list event) : bytes := join (str ",") (map show_event_walk l).
-
 Definition same_or_diff (reference other : bytes) : bytes :=
   if bytes_eqb reference other then str "same" else str "DIFF:" ++ other.
 
@@ -87,7 +78,7 @@ Definition with_document (s : bytes) (k : tbl -> raw -> bytes) : bytes :=
 Definition cmd_visit (s : bytes) : bytes :=
   with_document s (fun root tr =>
     let vlog := show_log (visit_document root) in
-    let wlog := show_log_walk (expected_log root) in
+    let wlog := show_log (expected_log root) in
     let '(mev, root1) := visit_document_mut hook_default root in
     let '(iev, rooti) := visit_document_mut (hook_integer add1000) root in
     let '(sev, roots) := visit_document_mut (hook_string bang) root in
@@ -128,7 +119,7 @@ Definition cmd_ph (s k1 k2 : bytes) : bytes :=
     match index_mut2 root k1 k2 with
     | Some root' =>
       let vlog := show_log (visit_document root') in
-      str "ok visit=" ++ vlog ++ str " walk=" ++ same_or_diff vlog (show_log_walk (expected_log root'))
+      str "ok visit=" ++ vlog ++ str " walk=" ++ same_or_diff vlog (show_log (expected_log root'))
     | None => str "bad-args"
     end).
 
